@@ -86,6 +86,8 @@ func init() {
 						os.WriteFile(p, b, 0o644)
 					case "rm":
 						os.Remove(p)
+					case "chmod":
+						os.Chmod(p, 0o755)
 					case "mv":
 						q := filepath.Join(dir, op.Nth(2).Str())
 						os.MkdirAll(filepath.Dir(q), 0o755)
